@@ -14,7 +14,6 @@ use crate::handlers::hunk_header::{AmbiguousDiffMinusCounter, ParsedHunkHeader};
 use crate::handlers::{self, merge_conflict};
 use crate::paint::Painter;
 use crate::style::DecorationStyle;
-use crate::utils;
 
 #[derive(Clone, Debug, PartialEq, Eq)]
 pub enum State {
@@ -257,21 +256,10 @@ impl<'a> StateMachine<'a> {
     fn ingest_line(&mut self, raw_line_bytes: &[u8]) {
         match String::from_utf8(raw_line_bytes.to_vec()) {
             Ok(utf8) => self.ingest_line_utf8(utf8),
+            // Invalid bytes are replaced; the line is then handled like any other (CR removal,
+            // truncation between characters and outside escape sequences).
             Err(_) => {
-                let raw_line = String::from_utf8_lossy(raw_line_bytes);
-                // (a max_line_length of 0 means no limit)
-                let truncated_len = if self.config.max_line_length > 0 {
-                    utils::round_char_boundary::floor_char_boundary(
-                        &raw_line,
-                        self.config.max_line_length,
-                    )
-                } else {
-                    raw_line.len()
-                };
-                self.raw_line = raw_line[..truncated_len].to_string();
-                // As for valid UTF-8: handlers rely on `line` being `raw_line` without its
-                // escape sequences.
-                self.line = ansi::strip_ansi_codes(&self.raw_line);
+                self.ingest_line_utf8(String::from_utf8_lossy(raw_line_bytes).into_owned())
             }
         }
     }
